@@ -23,6 +23,20 @@ struct P : nitro::lang::tuple_operators<P>
         return std::tie(p.a, p.b, p.c, p.s);
     }
 };
+// a value type with floating-point members (signed zeros: +0.0 == -0.0 must hash equal)
+struct Q : nitro::lang::tuple_operators<Q>
+{
+    double d;
+    int a;
+    float f;
+    Q(double d_, int a_, float f_) : d(d_), a(a_), f(f_)
+    {
+    }
+    friend auto as_tuple(const Q& q)
+    {
+        return std::tie(q.d, q.a, q.f);
+    }
+};
 } // namespace
 
 extern "C" {
@@ -40,6 +54,40 @@ unsigned long k_hash_uptr(int v);
 unsigned long k_hash_sptr(int v);
 unsigned long k_hash_int(int v);
 unsigned long k_hash_tuple_of_ptr(int a, int b);          // tuple<unique_ptr<int>, int>
+// floating point
+unsigned k_ops_q(double d1, int a1, float f1, double d2, int a2, float f2);
+unsigned long k_hash_q(double d, int a, float f);
+unsigned long k_hash_td(int a, double d);                 // tuple<int,double>
+unsigned long k_hash_pd(double d, int a);                 // pair<double,int>
+unsigned long k_hash_vd(double d);                        // variant<int,double> holding the double
+unsigned long k_hash_f(float f);
+}
+unsigned k_ops_q(double d1, int a1, float f1, double d2, int a2, float f2)
+{
+    Q x(d1, a1, f1), y(d2, a2, f2);
+    return (x == y ? 1u : 0u) | (x != y ? 2u : 0u) | (x < y ? 4u : 0u) | (x > y ? 8u : 0u) | (x <= y ? 16u : 0u) |
+           (x >= y ? 32u : 0u);
+}
+unsigned long k_hash_q(double d, int a, float f)
+{
+    return nitro::lang::hash(Q(d, a, f));
+}
+unsigned long k_hash_td(int a, double d)
+{
+    return nitro::lang::hash(std::make_tuple(a, d));
+}
+unsigned long k_hash_pd(double d, int a)
+{
+    return nitro::lang::hash(std::make_pair(d, a));
+}
+unsigned long k_hash_vd(double d)
+{
+    std::variant<int, double> x(d);
+    return nitro::lang::hash(x);
+}
+unsigned long k_hash_f(float f)
+{
+    return nitro::lang::hash(f);
 }
 static P mk(const struct pval* v)
 {
